@@ -23,7 +23,25 @@ func main() {
 	knownFile := flag.String("known", "/verif/known_findings.json", "known findings file")
 	params := flag.String("params", "", "comma separated name=int harness parameters (bounds)")
 	noNative := flag.Bool("no-native", false, "skip native replay (development only)")
+	scan := flag.String("scan", "", "static scan only: nondet|bank")
 	flag.Parse()
+	if *scan != "" {
+		prog, err := loadProgram(*harnessDir, "./props")
+		if err != nil {
+			fmt.Fprintln(os.Stderr, err)
+			os.Exit(2)
+		}
+		var sites []scanSite
+		if *scan == "nondet" {
+			sites = prog.scanNondet()
+		} else {
+			sites = prog.scanBankCalls()
+		}
+		for _, s := range sites {
+			fmt.Printf("%s\t%s\t%s\n", s.Kind, s.Pos, s.Func)
+		}
+		return
+	}
 	cfg := &RunConfig{HarnessDir: *harnessDir, Property: *property, Tier: *tier, Workers: *workers, Out: *out,
 		Solver: *solver, Trace: *trace, MaxPaths: *maxPaths, ReplayDir: *replayDir, KnownFile: *knownFile, NoNative: *noNative}
 	cfg.Params = map[string]int{}
